@@ -177,4 +177,5 @@ def run(ctx):
         "delta_k -> mode mesh -> amplitudes/spectrum factors is recomputed (R17.1); odd mode numbers raise before any mesh is built (R17.2); the mesh is "
         "arange(-n/2*dk, n/2*dk, dk) per axis with dk = 2*pi/period*[1, anis], i.e. integer multiples of dk, and the phase is <k, x> over all components entering only "
         "through sin/cos (R17.3) - which makes a shift by period_i/anis_i along isometrized axis i change every phase by a multiple of 2*pi. NOT decided: floating-point exactness of that identity."
+        " (R17.1 also on exits by `raise`: a rejected update leaves no new source with an old derived field; R17.2 as a validate-before-use typestate; R17.7 the stored period / mode numbers are the generator's own arrays; R17.8 the model comparison gating the rebuild is unconditional.)"
     )
